@@ -29,6 +29,23 @@ THEOREMS = ["C35_simplify_polyline", "C35_simplify_polygon", "C35_hull_subset_of
             "C35_hull_oracle_sound", "C35_simplify_oracle_sound", "C35_nonvacuous"]
 
 
+def correspond_once(ctx, name, group, req, cases, agree, prop_ok, show, shard, fn_name):
+    """C23 pattern with ONE model evaluation: the alarm is `prop_ok` on the implementation's outcome
+    (ctx.correspond with agree = prop_ok), the deterministic-model comparison `agree` is evaluated
+    in the same Coq pass and only reported as a number."""
+    terms = [c["term"] for c in cases]
+    dis, pf, err = ctx.coq_eval_cases(group, req, terms, agree, prop_ok, shard, tag=name[:8].replace("-", ""))
+    if err:
+        raise vf.CheckerBroken("model evaluation failed for %s: %s" % (name, err))
+    orig = ctx.coq_eval_cases
+    ctx.coq_eval_cases = lambda *a, **k: (list(pf), list(pf), None)   # results of the pass above
+    try:
+        ctx.correspond(name, group, req, cases, agree=prop_ok, prop_ok=prop_ok, show=show, shard=shard, fn_name=fn_name)
+    finally:
+        ctx.coq_eval_cases = orig
+    return len([i for i in dis if i not in set(pf)])
+
+
 def main(ctx):
     ctx.rule = ("integer-coordinate point sets: all ordered triples (quick) / quadruples (thorough) of points of the 3x3 lattice for "
                 "the hull; seeded random sets of 0..12 points with coordinates in -8..8 (uniform, coarse lattices, collinear runs "
@@ -43,14 +60,13 @@ def main(ctx):
     ctx.audit(GROUP)
     failed = ctx.prove(GROUP, "Props_C35", THEOREMS, timeout=3000)
     bindir = ctx.harness(GROUP, profile="release", bins=["c35"], hooks=False)
-    cases = ctx.gen_exec(bindir, "c35", ctx.n(2500, 40000), inputs=ctx.replay_inputs())
+    cases = ctx.gen_exec(bindir, "c35", ctx.n(2500, 10000), inputs=ctx.replay_inputs())
     # The alarm: the implementation's own output must satisfy the exact-arithmetic oracle.
-    ctx.correspond("polygon-algorithms-valid", GROUP, REQ, cases, agree="prop_ok", prop_ok="prop_ok", show="show",
-                   shard=500, fn_name="ImageProc.Poly.prop_ok")
     # Informational: does the code still coincide with the deterministic models the theorems are about?
-    dis, _, err = ctx.coq_eval_cases(GROUP, REQ, [c["term"] for c in cases], "agree", "prop_ok", 500, tag="det")
-    ctx.extra["deterministic_model_disagreements"] = len(dis) if not err else "evaluation error"
-    if dis:
-        ctx.log("note: %d case(s) deviate from the deterministic models (hull scan order / simplification pivots); the property oracle decides" % len(dis))
+    drift = correspond_once(ctx, "polygon-algorithms-valid", GROUP, REQ, cases, "agree", "prop_ok", "show", 500,
+                            "ImageProc.Poly.prop_ok")
+    ctx.extra["deterministic_model_disagreements"] = drift
+    if drift:
+        ctx.log("note: %d case(s) deviate from the deterministic models (hull scan order / simplification pivots); the property oracle decides" % drift)
     if failed and not ctx.violations:
         ctx.proof_broken(failed, "all correspondence cases of this run")
